@@ -8,3 +8,20 @@ package geoip
 //@ func New(conf *DBConfig) (Database, error)
 //@   assigns nothing
 //@   trusted
+
+// ---------------- C17: GeoIP lookup errors are logged by the connection handler ----------------
+// The handler logs a failing lookup at Error level ("Failed to get CC:", err), so whatever the database
+// implementations return as an error must not carry the looked-up (client) address. The reader of the
+// maxminddb/geoip2 libraries gives no such guarantee (its text for an IPv6 lookup in an IPv4-only database is
+// "error looking up '<address>': ..."), so nothing is assumed about the errors it returns.
+//@ import net "net"
+//@ func (mmdb *maxMindDatabase) CC(ipAddress net.IP) (string, error)
+//@   requires addrFree(ErrLookupFailed)
+//@   ensures @C17: result1 == nil || addrFree(result1)
+//@ func (mmdb *maxMindDatabase) ASN(ipAddress net.IP) (uint, error)
+//@   requires addrFree(ErrLookupFailed)
+//@   ensures @C17: result1 == nil || addrFree(result1)
+//@ func (mmdb *EmptyDatabase) CC(ip net.IP) (string, error)
+//@   ensures @C17: result1 == nil
+//@ func (mmdb *EmptyDatabase) ASN(ip net.IP) (uint, error)
+//@   ensures @C17: result1 == nil
